@@ -75,7 +75,13 @@ func Generic(name string, seed int) float64 {
 		h = (h ^ uint64(s[i])) * 1099511628211
 	}
 	h ^= h >> 29
-	return float64(h%6145)/1024 - 3
+	v := float64(h%6145)/1024 - 3
+	if seed < 0 {
+		// extreme-position stream: the same lattice stretched to [-700, 700] (overflow / underflow /
+		// cancellation show up only at large magnitudes)
+		return v * 700 / 3
+	}
+	return v
 }
 
 func Param(name string) int {
